@@ -92,6 +92,48 @@ func (l *lcdRun) do(op string) string {
 			l.p.WriteLY(uint8(unhex(w[1])))
 		case "scx":
 			l.p.WriteSCX(uint8(unhex(w[1]))) // scrolling must not influence line/mode timing or requests
+		case "long":
+			// a FRESH PPU left on for n machine cycles, every cycle compared with the closed form of the specification
+			// (theorem c13_refines: the model equals it for every n; c14_vblank_once: VBlank iff k % 17556 = 16415)
+			n := atoi(w[1])
+			i := interrupts.New()
+			o := oam.New()
+			p := ppu.New(i, o, false)
+			i.WriteIF(0)
+			mism, first := 0, "-"
+			var ly, mode uint8
+			for k := 1; k <= n; k++ {
+				p.EndMachineCycle()
+				ph := k + 1
+				if k <= 62 {
+					ph = k - 1
+				}
+				ph %= 17556
+				wl := uint8(ph / 114)
+				wm := uint8(0)
+				switch {
+				case ph/114 >= 144:
+					wm = 1
+				case ph%114 < 20:
+					wm = 2
+				case ph%114 < 61:
+					wm = 3
+				}
+				wv := k%17556 == 16415
+				ly, mode = p.ReadLY(), p.ReadSTAT()&3
+				f := i.ReadIF() & 0x1f
+				if f != 0 {
+					i.WriteIF(0)
+				}
+				if ly != wl || mode != wm || (f&1 != 0) != wv || f&0x1e != 0 {
+					mism++
+					if first == "-" {
+						first = fmt.Sprintf("%d:ly=%02x/%d,if=%x,expected=%02x/%d,vblank=%v", k, ly, mode, f, wl, wm, wv)
+					}
+				}
+			}
+			l.fresh()
+			return fmt.Sprintf("mismatches=%d first=%s end=%02x/%d", mism, first, ly, mode)
 		case "sprites":
 			// OAM filled with objects (Y spread over the screen, many per line): the number of objects on a line
 			// must not influence line/mode timing or requests either (the documented schedule is fixed)
@@ -171,6 +213,12 @@ func lcdGen(c *ctx) {
 	// arithmetic survives it) and SCX rewritten around the end of mode 3 of a line (scrolling must not move any
 	// mode boundary or request)
 	l.steady(0x78, 0x90, 5*lcdFrame+200)
+	// a very long on-period (more than 256 frames; thorough: more than 2^32 cycles): counters of any width wrap
+	if c.thorough() {
+		l.do(fmt.Sprintf("long %d", (1<<32)+3*lcdFrame+77))
+	} else {
+		l.do(fmt.Sprintf("long %d", 300*lcdFrame+77))
+	}
 	for k := 0; k < 3; k++ { // objects on many lines, objects enabled (LCDC.1): the same schedule
 		l.do("reset")
 		l.do(fmt.Sprintf("sprites %x", c.rng.intn(1<<30)))
